@@ -256,6 +256,10 @@ impl FindCase {
             if !found(store, &w.recs[ri].1, id) {
                 return ctx.fail("whole-title-not-found", "", format!("lang={} title={:?}: record {} not among hits {:?}", w.lang, w.recs[ri].1, id, search(store, &w.recs[ri].1)));
             }
+            let tf = format!("{} ", w.recs[ri].1);
+            if !found(store, &tf, id) {
+                return ctx.fail("whole-title-not-found", "finished", format!("lang={} title={:?} followed by a space: record {} not among hits {:?}", w.lang, w.recs[ri].1, id, search(store, &tf)));
+            }
             let has_func = t.words.iter().any(|wd| wd.is_function());
             let repeated = (0..n).any(|i| (0..i).any(|j| word_chars(t, i) == word_chars(t, j)));
             if n >= 3 || has_func || repeated {
@@ -292,6 +296,11 @@ impl FindCase {
                     if !found(store, q, id) {
                         return ctx.fail("two-words-not-found", "", format!("lang={} title={:?} words #{} #{} query {:?}: record {} not among hits {:?}", w.lang, w.recs[ri].1, a, b, q, id, search(store, q)));
                     }
+                    let qf = format!("{} ", q);
+                    ctx.count("probes", 1);
+                    if !found(store, &qf, id) {
+                        return ctx.fail("two-words-not-found", "finished", format!("lang={} title={:?} words #{} #{} query {:?} (finished): record {} not among hits {:?}", w.lang, w.recs[ri].1, a, b, qf, id, search(store, &qf)));
+                    }
                     ctx.label_if(a > b, "reversed-order");
                 }
             }
@@ -318,6 +327,12 @@ impl FindCase {
                     if !found(store, &q, id) {
                         return ctx.fail("split-spelling-not-found", "", format!("lang={} title={:?} word {:?} split at {} -> query {:?}: record {} not among hits {:?}", w.lang, w.recs[ri].1, wc.iter().collect::<String>(), k, q, id, search(store, &q)));
                     }
+                    // the same two words typed and finished (a separator follows the second one)
+                    let qf = format!("{} ", q);
+                    ctx.count("split_probes", 1);
+                    if !found(store, &qf, id) {
+                        return ctx.fail("split-spelling-not-found", "finished", format!("lang={} title={:?} word {:?} split at {} -> query {:?} (finished): record {} not among hits {:?}", w.lang, w.recs[ri].1, wc.iter().collect::<String>(), k, qf, id, search(store, &qf)));
+                    }
                     if k == 1 || k + 1 == wc.len() {
                         ctx.nontrivial();
                         ctx.label("one-letter-half");
@@ -343,6 +358,10 @@ impl FindCase {
                 ctx.count("join_probes", 1);
                 if !found(store, &q, id) {
                     return ctx.fail("joined-spelling-not-found", "", format!("lang={} title={:?} adjacent words #{} #{} -> query {:?}: record {} not among hits {:?}", w.lang, w.recs[ri].1, wi, wi + 1, q, id, search(store, &q)));
+                }
+                let qf = format!("{} ", q);
+                if !found(store, &qf, id) {
+                    return ctx.fail("joined-spelling-not-found", "finished", format!("lang={} title={:?} adjacent words #{} #{} -> query {:?} (finished): record {} not among hits {:?}", w.lang, w.recs[ri].1, wi, wi + 1, qf, id, search(store, &qf)));
                 }
                 ctx.nontrivial();
                 ctx.label("joined-pair");
